@@ -7,3 +7,4 @@ INVARIANT AdjugateInverse
 INVARIANT MatsValid
 CHECK_DEADLOCK FALSE
 INVARIANT EmitMats
+INVARIANT IllValid
